@@ -17,7 +17,9 @@ drives the machine (wiring): every path to a transmission site passes `no manage
 that gate being the only clustering-dependent early exit; update() on every generation cycle before the gate;
 on_received_vam for every decoded VAM, processed under the manager's lock; the two cluster containers attached under their
 VAM keys, when not None, to the dictionary that is encoded; (d) the cluster containers against the VAM ASN.1 module,
-writer and reader side, leave / break-up reason enumerators and profile bit masks (coder, shared engine with C11).
+writer and reader side, leave / break-up reason enumerators and profile bit masks (coder, shared engine with C11); (e) a
+field copied into another one (`_leave_cluster_id <- _joined_cluster_id`) has not been cleared earlier in the same method
+(state, copies-live-field).
 Does not decide durations as elapsed time nor multi-station closed-loop behaviour through the real coder.
 """
 from __future__ import annotations
@@ -368,6 +370,28 @@ def run(ctx):
         if k == "return" and s_.value is not None and not (isinstance(s_.value, ast.Constant) and s_.value.value is None):
             x = gfl.expand(s_.value, st)
             ok = ok and isinstance(x, ast.Call) and dotted(x.func) == "random.randint"
+    # a field copied into another one still holds what it is supposed to carry over: `self._leave_cluster_id =
+    # self._joined_cluster_id` after `self._joined_cluster_id = None` in the same block announces leaving cluster None/0
+    n_cp = 0
+    for m in mgr.methods.values():
+        flm = ctx.flows.get(m)
+        for n_ in ast.walk(m.node):
+            if not (isinstance(n_, ast.Assign) and len(n_.targets) == 1 and id(n_) in flm.before):
+                continue
+            src_ = dotted(n_.value) if isinstance(n_.value, ast.Attribute) else None
+            dst_ = dotted(n_.targets[0])
+            if not (src_ and dst_ and src_.startswith("self.") and dst_.startswith("self.") and src_.count(".") == 1):
+                continue
+            n_cp += 1
+            ds = flm.reaching(src_, flm.before[id(n_)])
+            cleared = bool(ds) and all(isinstance(d.value, ast.Constant) and d.value.value is None for d in ds)
+            ctx.ob("C18.state", m.short(), f"copies-live-field:{dst_[5:]}<-{src_[5:]}", not cleared,
+                   f"{dst_} takes over {src_} while it still holds its value" if not cleared else
+                   f"{dst_} = {src_} is executed after {src_} was set to None in the same method (line "
+                   f"{getattr(ds[0].stmt, 'lineno', '?')}): the copy is always None - the leave notification names no / the wrong cluster",
+                   f"{m.module.rel}:{n_.lineno}")
+    if n_cp < 1:
+        raise AnalysisError("C18: no field-to-field copy left in the clustering manager (confirmed: _leave_cluster_id <- _joined_cluster_id)")
     ctx.ob("C18.state", gen.short(), "cluster-id-1..255", ok, "every non-None identifier returned is a draw from randint(lo >= 1, hi <= 255)", gen.loc)
     tc = mgr.methods["try_create_cluster"]
     tcf = ctx.flows.get(tc)
